@@ -436,8 +436,7 @@ def check_svg(rec, path, what, cap, model=None, film=None, ref_name=None, absent
                 # in-track position grows with |wrap|; when it reaches a quarter of the track the position is unconstrained
                 slack = 16 * EPS * (abs(w) + 1) * (xr - xl) * (1 + (1 / abs(math.log(c.redg / c.ledg)) if c.log else 0))
                 if slack > (xr - xl) / 4:
-                    if c.on_scale(w):
-                        expected.append((i, ci, None, 0.0))
+                    expected.append((i, ci, None, 0.0 if c.on_scale(w) else -1.0))     # -1: suppressed by the back-up mode, no point at all
                     continue
                 cands = [(w, fr)]
                 edge = Fraction(1, 10 ** 6) + Fraction(slack / (xr - xl))
@@ -468,8 +467,9 @@ def check_svg(rec, path, what, cap, model=None, film=None, ref_name=None, absent
             c = curves[ci]
             y = yref[i]
             if cands is None:
-                for dy in (-0.1, 0.0, 0.1):
-                    wild_y.add(round(y + dy, 1))
+                if slack == 0.0:
+                    for dy in (-0.1, 0.0, 0.1):
+                        wild_y.add(round(y + dy, 1))
                 continue
             need = [xx for ww, xx in cands if c.on_scale(ww)]
             xs_here = [x for k in (round(y - 0.1, 1), round(y, 1), round(y + 0.1, 1)) for x in ymap.get(k, [])]
